@@ -3,3 +3,4 @@ import Paho.Gen.Consts
 import Paho.Model.Trie
 import Paho.Model.Mid
 import Paho.Model.Validate
+import Paho.Spec.Topic
